@@ -2,7 +2,15 @@
 
 package repository
 
-import "github.com/restic/restic/internal/restic"
+import (
+	"bytes"
+	"context"
+
+	"github.com/restic/restic/internal/backend"
+	"github.com/restic/restic/internal/repository/crypto"
+	"github.com/restic/restic/internal/repository/pack"
+	"github.com/restic/restic/internal/restic"
+)
 
 // VerifC38LookupBlob returns pack id, offset and stored length of the first index entry of bh.
 func VerifC38LookupBlob(r *Repository, bh restic.BlobHandle) (restic.ID, uint, uint, bool) {
@@ -11,4 +19,36 @@ func VerifC38LookupBlob(r *Repository, bh restic.BlobHandle) (restic.ID, uint, u
 		return restic.ID{}, 0, 0, false
 	}
 	return l[0].PackID(), l[0].Blob.Offset, l[0].Blob.Length, true
+}
+
+// VerifC38AddMixedPack stores a hand-built pack holding a tree blob and a data blob side by side
+// (as old restic versions wrote them) in be and adds it to the repository's index.
+func VerifC38AddMixedPack(ctx context.Context, r *Repository, be backend.Backend, treeData, fileData []byte) (restic.ID, []byte, error) {
+	seal := func(plain []byte) []byte {
+		nonce := crypto.NewRandomNonce()
+		ct := make([]byte, 0, crypto.CiphertextLength(len(plain)))
+		ct = append(ct, nonce...)
+		return r.key.Seal(ct, nonce, plain, nil)
+	}
+	var packBuf bytes.Buffer
+	p := pack.NewPacker(r.Key(), &packBuf)
+	if _, err := p.Add(restic.TreeBlob, restic.Hash(treeData), seal(treeData), 0); err != nil {
+		return restic.ID{}, nil, err
+	}
+	if _, err := p.Add(restic.DataBlob, restic.Hash(fileData), seal(fileData), 0); err != nil {
+		return restic.ID{}, nil, err
+	}
+	if err := p.Finalize(); err != nil {
+		return restic.ID{}, nil, err
+	}
+	packBytes := packBuf.Bytes()
+	packID := restic.Hash(packBytes)
+	ph := backend.Handle{Type: backend.PackFile, Name: packID.String()}
+	if err := be.Save(ctx, ph, backend.NewByteReader(packBytes, be.Hasher())); err != nil {
+		return restic.ID{}, nil, err
+	}
+	if err := r.idx.StorePack(ctx, packID, p.Blobs(), &internalRepository{r}); err != nil {
+		return restic.ID{}, nil, err
+	}
+	return packID, packBytes, nil
 }
